@@ -70,7 +70,8 @@ pub fn trace(seed: u64, n: usize) -> Vec<J> {
                 2 => jint(i64::MIN + rng.gen_range(0..3)),
                 _ => jint(rng.gen_range(-3..3))
             },
-            2 => match rng.gen_range(0..8) {
+            2 => match rng.gen_range(0..9) {
+                8 => json!({"t": "real", "c": "nnan", "n": 0, "d": 1}),       // a NaN with the sign bit set: the same value as NaN
                 0 => jreal(f64::NAN), 1 => jreal(f64::INFINITY), 2 => jreal(f64::NEG_INFINITY), 3 => jreal(-0.0), 4 => jreal(0.0),
                 _ => jreal(rng.gen_range(-64..64) as f64 / [1.0, 2.0, 4.0, 8.0][rng.gen_range(0..4)])
             },
